@@ -792,6 +792,12 @@ class FunctionReferenceWithArguments:
         return result
 
     def _compute_effective_kwargs_with_context_args(self) -> Dict[str, Any]:
+        if "_memento_context_args" in self.effective_kwargs:
+            # The context args are hashed under this name, beside the parameters
+            raise ValueError(
+                "A parameter may not be called '_memento_context_args': the name is "
+                "reserved for the context arguments of the call"
+            )
         hash_kwargs = self.effective_kwargs.copy()
 
         # Apply context args as a single kwarg
